@@ -48,13 +48,18 @@ type input struct {
 	Ops    []fop   `json:"ops,omitempty"`
 }
 
-type vc struct{}
+// vc records the blocks finalizeRound runs the view change on
+type vc struct{ seen []*block.Block }
 
-func (vc) ViewChange(ctx context.Context, lfb *block.Block) error { return nil }
+func (v *vc) ViewChange(ctx context.Context, lfb *block.Block) error {
+	v.seen = append(v.seen, lfb)
+	return nil
+}
 
 // ---------------------------------------------------------------------------------- real objects
 
 type env struct {
+	vc     *vc
 	c      *chain.Chain
 	blocks []*block.Block
 	idx    map[*block.Block]int
@@ -65,7 +70,8 @@ func hashOf(i int) string { return fmt.Sprintf("%064x", i+1) }
 
 func build(in *input) *env {
 	e := &env{c: chain.Provider().(*chain.Chain), idx: map[*block.Block]int{}, rounds: map[int]*round.Round{}}
-	e.c.SetViewChanger(vc{})
+	e.vc = &vc{}
+	e.c.SetViewChanger(e.vc)
 	rankInRound := map[int]int{}
 	for i, bd := range in.Blocks {
 		b := block.NewBlock("", int64(bd.Round))
@@ -303,8 +309,9 @@ func runHistory(in *input) (cs string, fail string, kinds map[string]int) {
 			}
 			ctx, cancel := callCtx(hasMissing(in))
 			done := make(chan struct{})
+			e.vc.seen = nil
 			go func() { e.c.VerifFinalizeRound(ctx, r); close(done) }()
-			var accepted []int
+			var accepted, handed []int
 			for {
 				// wait for a hand-off or for finalizeRound to return, whichever comes first
 				tctx, tcancel := context.WithCancel(ctx)
@@ -321,6 +328,7 @@ func runHistory(in *input) (cs string, fail string, kinds map[string]int) {
 					break
 				}
 				err := e.worker(fb)
+				handed = append(handed, e.id(fb))
 				hand = append(hand, fmt.Sprintf("(%d, %s)", e.id(fb), vh.Bool(err == nil)))
 				if err == nil {
 					accepted = append(accepted, e.id(fb))
@@ -344,6 +352,28 @@ func runHistory(in *input) (cs string, fail string, kinds map[string]int) {
 				kinds["finalize-advanced"]++
 			default:
 				kinds["finalize-rolled-back-or-jumped"]++
+			}
+			// whatever the notarized blocks are: when the computed block is at most `ahead` rounds above the
+			// previous LFB, the view change and every block handed to the finalized-block worker
+			// (accepted or not) must descend from the previous LFB
+			for _, vb := range e.vc.seen {
+				x := e.id(vb)
+				if x < 0 || in.Blocks[x].Round <= in.Blocks[plfb].Round {
+					continue // roll-back branch
+				}
+				gap := in.Blocks[x].Round - in.Blocks[plfb].Round
+				kinds[fmt.Sprintf("forward-gap-minus-ahead=%+d", clamp(gap-in.Ahead))]++
+				if gap > in.Ahead {
+					continue
+				}
+				if !e.isAncestor(plfb, x, in) {
+					set("block-off-the-lfb-chain-handed-to-finalization")
+				}
+				for _, hb := range handed {
+					if !e.isAncestor(plfb, hb, in) {
+						set("block-off-the-lfb-chain-handed-to-finalization")
+					}
+				}
 			}
 			if !premise {
 				kinds["premise-false"]++
@@ -371,6 +401,16 @@ func runHistory(in *input) (cs string, fail string, kinds map[string]int) {
 	}
 	cs = fmt.Sprintf("(FcHistory %s %d 0 %s %s %s)%%nat", treeCoq(in), in.Ahead, natList(in.Rounds), vh.List(opsCoq), vh.List(obsCoq))
 	return
+}
+
+func clamp(d int) int {
+	if d < -2 {
+		return -2
+	}
+	if d > 2 {
+		return 2
+	}
+	return d
 }
 
 // worker: what finalizeBlockProcess checks before finalizing (worker.go) and what finalizeBlock
@@ -495,6 +535,54 @@ func genHistory(r *vh.Rand) *input {
 		}
 	}
 	in.Ops = append(in.Ops, fop{"finalize", maxRound})
+	return in
+}
+
+// genForkHistory: the main line is learned and finalized round by round up to an LFB in round L; then
+// a fork that branches off below the LFB (so it does not contain the LFB) is learned up to a round
+// chosen so that the block finalizeRound computes lies ahead-1, ahead or ahead+1 (sometimes +2/-2)
+// rounds above the LFB, and finalizeRound runs on the fork's top round.
+func genForkHistory(r *vh.Rand, ahead, delta int) *input {
+	L := r.Range(2, 4)
+	gap := ahead + delta
+	if gap < 1 {
+		gap = 1
+	}
+	top := L + gap + 1 // finalizeRound(top) computes the fork block of round L+gap
+	mainTop := L + 3
+	in := &input{Kind: "history", Ahead: ahead}
+	in.Blocks = []blk{{0, -1}}
+	mainIdx := map[int]int{0: 0}
+	for rn := 1; rn <= mainTop; rn++ {
+		in.Blocks = append(in.Blocks, blk{rn, mainIdx[rn-1]})
+		mainIdx[rn] = len(in.Blocks) - 1
+	}
+	branch := L - 1 - r.Intn(L) // the fork leaves the main line at this round (below the LFB)
+	prev := mainIdx[branch]
+	var fork []int
+	for rn := branch + 1; rn <= top; rn++ {
+		in.Blocks = append(in.Blocks, blk{rn, prev})
+		prev = len(in.Blocks) - 1
+		fork = append(fork, prev)
+	}
+	maxR := top
+	if mainTop > maxR {
+		maxR = mainTop
+	}
+	in.Rounds = allRounds(maxR)
+	for rn := 1; rn <= mainTop; rn++ {
+		in.Ops = append(in.Ops, fop{"add", mainIdx[rn]})
+		if rn >= 4 {
+			in.Ops = append(in.Ops, fop{"finalize", rn})
+		}
+	}
+	for _, f := range fork {
+		in.Ops = append(in.Ops, fop{"add", f})
+	}
+	in.Ops = append(in.Ops, fop{"finalize", top})
+	if r.Chance(1, 2) {
+		in.Ops = append(in.Ops, fop{"finalize", top})
+	}
 	return in
 }
 
@@ -692,6 +780,14 @@ func main() {
 		handle(in, true)
 	}
 	rnd := vh.NewRand(o.Seed)
+	// forks that do not contain the LFB, with the computed block at every distance around the walk-back limit
+	for _, ahead := range []int{3, 4, 5} {
+		for delta := -2; delta <= 2; delta++ {
+			for k := 0; k < o.N(2, 10); k++ {
+				handle(genForkHistory(rnd, ahead, delta), true)
+			}
+		}
+	}
 	for i := 0; i < o.N(250, 2500); i++ {
 		handle(genCompute(rnd), true)
 	}
